@@ -58,6 +58,9 @@ def cases(tier, seed):
     # the repository's example scripts and its own container / solving tests
     for i in range(48 if tier == "quick" else 1200):
         out.append({"kind": "hooked-solver", "i": i, "seed": seed, "tier": tier})
+    # large containers (1100..2600 items) whose coordinates come in tight clusters (neighbours 1e-12..1e-7 apart) beside spread ones
+    for i in range(6 if tier == "quick" else 80):
+        out.append({"kind": "large", "i": i, "seed": seed})
     from vlib import ambient
     for c in ambient.ambient_cases(tier):
         out.append({"kind": "hooked-ambient", "amb": c})
@@ -303,6 +306,69 @@ def run_case(c):
         obs["max_history_len"] = L
         return {"violations": viol, "obs": obs, "nontrivial": True, "keys": keys,
                 "sample": {"kind": "exhaustive", "class": cls, "maxlen": ml, "first_op": list(ops[c["first"]]), "max_len": L, "histories": n} if c["first"] == 0 else None}
+    if c["kind"] == "large":
+        import bisect
+        rng = scenario.rng_for(c["seed"], "C19L", c["i"])
+        dual = c["i"] % 2 == 1
+        sd = (SearchDataDualQueue if dual else SearchData)(DummyProblem(), None if c["i"] % 3 else 50)
+        first, last = SearchDataItem(Point([0.0], []), 0.0), SearchDataItem(Point([1.0], []), 1.0)
+        first.globalR = first.localR = -1e9
+        last.globalR = last.localR = 0.0
+        sd.InsertFirstDataItem(first, last)
+        xs, its = [0.0, 1.0], [first, last]
+        target = int(rng.integers(1100, 2600))
+        centres = [float(rng.random()) for _ in range(6)]
+        steps = [float(10 ** rng.uniform(-12, -7)) for _ in range(6)]
+        nfind = nins = nhint = 0
+
+        def lookup(x):
+            nonlocal nfind
+            res = sd.FindDataItemByOneDimensionalPoint(x)
+            nfind += 1
+            k = bisect.bisect_right(xs, x)
+            exp = its[k] if k < len(its) else None
+            if res is not exp and len(viol) < 4:
+                viol.append({"mech": "containers:covering-interval-lookup", "x": x, "returned": None if res is None else float(res.GetX()),
+                             "expected": None if exp is None else float(exp.GetX()), "items": len(xs), "cls": type(sd).__name__})
+            return exp
+        while len(xs) < target and not viol:
+            u = rng.random()
+            if u < 0.55:
+                q = int(rng.integers(6))
+                x = centres[q] + steps[q] * float(rng.integers(-400, 400))
+            else:
+                x = float(rng.random())
+            if not (0.0 < x < 1.0):
+                continue
+            k = bisect.bisect_left(xs, x)
+            if k < len(xs) and xs[k] == x:
+                lookup(x)
+                continue
+            if rng.random() < 0.3:
+                lookup(x)
+            it = SearchDataItem(Point([x], []), x)
+            it.globalR = float(rng.normal())
+            it.localR = float(rng.normal())
+            hint = rng.random() < 0.3
+            sd.InsertDataItem(it, its[k] if hint else None)
+            nins += 1
+            nhint += int(hint)
+            xs.insert(k, x)
+            its.insert(k, it)
+            l, r = it.GetLeft(), it.GetRight()
+            if (l is not its[k - 1] or r is not its[k + 1] or l.GetRight() is not it or r.GetLeft() is not it) and len(viol) < 4:
+                viol.append({"mech": "containers:insert-neighbours", "x": x, "left": None if l is None else float(l.GetX()), "right": None if r is None else float(r.GetX()),
+                             "expected_left": xs[k - 1], "expected_right": xs[k + 1], "items": len(xs), "hint": bool(hint), "cls": type(sd).__name__})
+            if len(xs) % 256 == 0 or len(xs) == target:
+                trav = [t for t in sd]
+                if (len(trav) != len(its) or any(a is not b for a, b in zip(trav, its))) and len(viol) < 4:
+                    viol.append({"mech": "containers:traversal-order", "items": len(xs), "traversed": len(trav), "cls": type(sd).__name__})
+                if sd.GetCount() != len(its) and len(viol) < 4:
+                    viol.append({"mech": "containers:count", "GetCount": sd.GetCount(), "items": len(its)})
+        obs.update({"large_histories": 1, "large_items_max": len(xs), "large_inserts": nins, "large_hinted_inserts": nhint, "large_lookups": nfind,
+                    "large_min_neighbour_gap": float(np.min(np.diff(xs)))})
+        return {"violations": viol, "obs": obs, "nontrivial": True, "keys": ["large|%d" % c["i"]],
+                "sample": {"kind": "large clustered container", "items": len(xs), "lookups": nfind, "class": type(sd).__name__} if c["i"] < 2 else None}
     if c["kind"] == "random":
         rng = scenario.rng_for(c["seed"], "C19r", c["i"])
         for q in range(c["n"]):
@@ -418,7 +484,7 @@ def run_case(c):
 def finalize(obs, tier, stats):
     for k in ("histories_exhaustive", "histories_random", "histories_queue", "best_requests", "lookups", "bounded_histories", "cq_best",
               "hooked_solver_runs", "hooked_ambient_workloads", "hook_queue_pops", "hook_inserts_with_hint", "hook_inserts_without_hint",
-              "hook_queue_clears", "hook_full_traversals", "hook_lookups", "hook_pops_with_ties"):
+              "hook_queue_clears", "hook_full_traversals", "hook_lookups", "hook_pops_with_ties", "large_histories", "large_lookups"):
         if not obs.get(k):
             return "%s never observed" % k, {}
     amb = obs.get("ambiguous", 0)
